@@ -93,18 +93,23 @@ def runErrorText : Thrown → String
 structure Act where
   name : String
   native : Bool
+  /-- the file its code comes from (index into the file table; unused for natives) -/
+  file : Nat
   /-- where the activation currently is: its call site of the next inner activation, or the raising construct -/
   cur : Int
 
-/-- activations outermost first; `name`/`native` describe the activation that contains the levels -/
-def acts (name : String) (native : Bool) : List Level → Int → List Act
-  | [], cur => [{ name := name, native := native, cur := cur }]
+/-- activations outermost first; `name`/`native`/`file` describe the activation that contains the levels.
+    Eval code is an activation of its own (ES5 §10.4.2: a new execution context), nameless, in the eval source. -/
+def acts (name : String) (native : Bool) (file : Nat) : List Level → Int → List Act
+  | [], cur => [{ name := name, native := native, file := file, cur := cur }]
   | lv :: ls, cur =>
+    let here : Act := { name := name, native := native, file := file, cur := lv.off }
     match lv.via with
-    | .viaNative n =>
-      { name := name, native := native, cur := lv.off } :: { name := n, native := true, cur := 0 } :: acts lv.name false ls cur
-    | .nativeOnly => { name := name, native := native, cur := lv.off } :: acts lv.name true ls cur
-    | _ => { name := name, native := native, cur := lv.off } :: acts lv.name false ls cur
+    | .viaNative n => here :: { name := n, native := true, file := 0, cur := 0 } :: acts lv.name false lv.file ls cur
+    | .nativeOnly => here :: acts lv.name true 0 ls cur
+    | .evalDirect => here :: acts "" false lv.file ls cur
+    | .evalIndirect => here :: { name := "eval", native := true, file := 0, cur := 0 } :: acts "" false lv.file ls cur
+    | _ => here :: acts lv.name false lv.file ls cur
 
 def raiseOff : Raise → Int
   | .withAt o => o
@@ -116,16 +121,18 @@ def raiseOff : Raise → Int
 def applyLimit (limit : Int) (l : List α) : List α :=
   if limit ≥ 1 then l.take limit.toNat else l
 
-def actOut (fname : String) (src : Src) (a : Act) : FrameOut :=
+def actOut (files : List FileEnt) (a : Act) : FrameOut :=
   { callee := a.name,
     loc := if a.native then Loc.native
-           else match positionAt src (a.cur - 1) with     -- idx = offset + base, base = 1
-             | some (l, c) => Loc.at (if fname = "" then "<anonymous>" else fname) l c
-             | none => Loc.unknown }
+           else match files[a.file]? with
+             | none => Loc.unknown
+             | some fe => match positionAt fe.src (a.cur - 1) with     -- idx = offset + base, base = 1
+               | some (l, c) => Loc.at (if fe.name = "" then "<anonymous>" else fe.name) l c
+               | none => Loc.unknown }
 
 /-- the expected trace of a scenario: innermost first, truncated to the limit -/
-def trace (fname : String) (src : Src) (limit : Int) (sc : Scenario) : List FrameOut :=
-  applyLimit limit ((acts "" false sc.levels (raiseOff sc.raise)).reverse.map (actOut fname src))
+def trace (files : List FileEnt) (limit : Int) (sc : Scenario) : List FrameOut :=
+  applyLimit limit ((acts "" false 0 sc.levels (raiseOff sc.raise)).reverse.map (actOut files))
 
 /-! ## deviation regions: decidable predicates over a request (used by the driver and as theorem hypotheses) -/
 
@@ -156,7 +163,8 @@ def devUnrecorded (sc : Scenario) : Bool := sc.levels.any (fun lv => lv.via != .
 /-- an activation entered without any call expression (getter, toString, valueOf) -/
 def devImplicit (sc : Scenario) : Bool := sc.levels.any (fun lv => lv.via == .implicit)
 /-- a direct eval completed earlier in some active activation -/
-def devEvalFile (sc : Scenario) : Bool := sc.levels.any (fun lv => hasEval lv.pre) || hasEval sc.pre
+def devEvalFile (sc : Scenario) : Bool :=
+  sc.levels.any (fun lv => hasEval lv.pre || lv.via == .evalDirect) || hasEval sc.pre
 /-- the error is raised in script code without a usable `at` -/
 def devErrPos (sc : Scenario) : Bool :=
   match sc.raise with
@@ -165,15 +173,18 @@ def devErrPos (sc : Scenario) : Bool :=
   | .siteBare .other _ => true
   | _ => innermostNative sc.levels
 /-- some reported position lies after a lone <CR>, an <LS> or a <PS> -/
-def devPositionCR (src : Src) (sc : Scenario) : Bool :=
-  (acts "" false sc.levels (raiseOff sc.raise)).any (fun a => !a.native && !cleanAt src (a.cur - 1))
+def devPositionCR (files : List FileEnt) (sc : Scenario) : Bool :=
+  (acts "" false 0 sc.levels (raiseOff sc.raise)).any (fun a => !a.native &&
+    match files[a.file]? with
+    | some fe => !cleanAt fe.src (a.cur - 1)
+    | none => false)
 
-def traceDevs (src : Src) (sc : Scenario) : List String :=
+def traceDevs (files : List FileEnt) (sc : Scenario) : List String :=
   (if devUnrecorded sc then ["trace_unrecorded_callee"] else []) ++
   (if devImplicit sc then ["trace_implicit_call"] else []) ++
   (if devEvalFile sc then ["trace_eval_file"] else []) ++
   (if devErrPos sc then ["errpos_no_at"] else []) ++
-  (if devPositionCR src sc then ["position_cr"] else [])
+  (if devPositionCR files sc then ["position_cr"] else [])
 
 /-- the name/message of an error object were changed after it was created -/
 def staleText : Thrown → Bool
